@@ -239,7 +239,7 @@ func check(r *harness.Run, c redCase) error {
 func main() { harness.Main("C05", "model_checking", run) }
 
 func run(r *harness.Run) {
-	r.Rule("every protected event type + 2 unprotected types x every subset of <= K content keys from the union of all versions' keep-lists plus junk/nested keys (each with a value from a typed menu incl. 2^53-1, null, nested objects/arrays, strings needing escapes) x all 16 room versions; and every subset of 8 extra top-level keys per type; depth 0 / origin_server_ts 0 variants; every type also on events without a state key; null / false / 0 / empty string / [] / {} under each of 12 top-level keys. Oracle: value equality with refredact (spec tables), keep-list membership, idempotence, identity fields and hashed event ID (vs refevent) unchanged, PDU.Redact agreement (on a trusted parse, and on an untrusted parse that was co-signed first), all signatures still verify (real VerifyJSON). Non-trivial = distinct case where redaction both kept and removed content.")
+	r.Rule("every protected event type + 2 unprotected types x every subset of <= K content keys from the union of all versions' keep-lists plus junk/nested keys (each with a value from a typed menu incl. 2^53-1, null, nested objects/arrays, strings needing escapes) x all 16 room versions; and every subset of 8 extra top-level keys per type; depth 0 / origin_server_ts 0 variants; every type also on events without a state key; null / false / 0 / empty string / [] / {} under each of 12 top-level keys; junk top-level keys that differ from a kept key only in letter case. Oracle: value equality with refredact (spec tables), keep-list membership, idempotence, identity fields and hashed event ID (vs refevent) unchanged, PDU.Redact agreement (on a trusted parse, and on an untrusted parse that was co-signed first), all signatures still verify (real VerifyJSON). Non-trivial = distinct case where redaction both kept and removed content.")
 	r.Assume("ed25519 / sha256 trusted", "float-valued and >2^53 numbers in content are outside the property's alphabet")
 	r.OnReplay("red", func(raw json.RawMessage) error {
 		var c redCase
@@ -385,6 +385,11 @@ func run(r *harness.Run) {
 				for _, raw := range []string{`null`, `false`, `0`, `""`, `[]`, `{}`} {
 					sjobs = append(sjobs, redCase{Version: v, Type: t, Content: map[string]string{"membership": `"join"`, "junk": `1`}, Subst: map[string]string{k: raw}})
 				}
+			}
+			// junk top-level keys that differ from a kept key only in letter case (or by a Unicode case fold): unknown keys
+			// like any other, to be removed - not to be taken for the kept key, nor to replace it
+			for _, junk := range [][2]string{{"Type", `"m.room.create"`}, {"Event_ID", `"$forged:a.org"`}, {"Sender", `"@other:a.org"`}, {"State_Key", `"x"`}, {"CONTENT", `{"forged":1}`}, {"Room_ID", `"!other:a.org"`}, {"Hashes", `{"sha256":"x"}`}, {"un\u017figned", `{"x":1}`}, {"Depth", `1`}, {"zz_Type", `1`}} {
+				sjobs = append(sjobs, redCase{Version: v, Type: t, Content: map[string]string{"membership": `"join"`, "junk": `1`}, Extra: map[string]string{junk[0]: junk[1]}})
 			}
 			sjobs = append(sjobs, redCase{Version: v, Type: t, Content: map[string]string{"membership": `"join"`}, Subst: map[string]string{"state_key": `null`, "origin": `null`, "membership": `null`, "prev_state": `null`, "redacts": `null`}})
 		}
